@@ -75,6 +75,9 @@ func Execute(t *Table, id, tag string, p Program, seed int64, variant int, keepF
 	if e.P.Items == nil {
 		e.P.Items = []Item{}
 	}
+	if e.P.Nm == nil {
+		e.P.Nm = []NM{}
+	}
 	text, emitted, err := Render(t, p, ProgSeed(seed, p), variant)
 	if err != nil {
 		e.Render = err.Error()
